@@ -690,6 +690,23 @@ type vScript struct {
 	h, c int // else: slice operation c (0 grow, 5 remove-if) on field 0 of handle h
 }
 
+// two slots (path, field) DIVERGE when neither lies inside the other: they differ in a field, or in the element index of
+// the same slice; a slot and something inside one of its own elements do not diverge
+func vDiverge(p1 []vStep, j1 int, p2 []vStep, j2 int) bool {
+	a := append(append([]vStep(nil), p1...), vStep{false, j1, -7})
+	b := append(append([]vStep(nil), p2...), vStep{false, j2, -7})
+	for k := 0; k < len(a) && k < len(b); k++ {
+		if a[k].j != b[k].j {
+			return true
+		}
+		if a[k] == b[k] && a[k].i != -7 {
+			continue
+		}
+		return a[k].ps && b[k].ps && a[k].i != b[k].i
+	}
+	return false
+}
+
 // lookup finds the position with the same handle, path and row type in the current enumeration
 func (g *vProg) lookup(all []vPos, p vPos) *vPos {
 	pt := vPathTerm(p.p)
@@ -770,7 +787,11 @@ func (g *vProg) plan() *vPlan {
 	if rng.Intn(40) == 0 {
 		h := rng.Intn(len(g.roots))
 		return &vPlan{term: fmt.Sprintf("OReadOnly %d", h), name: "readonly", run: func() {
-			*vStateOf(g.roots[h]) = internal.StateReadOnly
+			if m, ok := g.roots[h].(Metrics); ok {
+				m.MarkReadOnly() // the public way; the other roots have no such method: their (shared) state flag is set
+			} else {
+				*vStateOf(g.roots[h]) = internal.StateReadOnly
+			}
 			g.ro[h] = true
 			g.roBurst, g.roH = 4, h
 			g.roCopy = h
@@ -1222,6 +1243,15 @@ func (g *vProg) planAt(pos vPos, all []vPos) *vPlan {
 					np = append(np, vStep{false, 0, 0})
 				}
 				g.fresh = &vPos{h: h, p: np}
+			}, post: func(_ []string, panicked bool) {
+				if panicked {
+					return
+				}
+				_, nd := vNav(g.types[h], g.roots[h], pos.p)
+				rows := vReadSlotRows(n, nd, j)
+				if want := vZeroRowTerm(f.elem, true); len(rows) != l+1 || rows[len(rows)-1] != want {
+					g.oracle("append-empty-not-empty", fmt.Sprintf("AppendEmpty on a slice of %d element(s): now %d, the new one reads %v, want %s", l, len(rows), rows[len(rows)-1:], want))
+				}
 			}})
 		case c == 4:
 			cc := rng.Intn(7)
@@ -1367,6 +1397,26 @@ func vPrimSliceFields(n int) []int {
 		}
 	}
 	return r
+}
+
+// the value term of the zero row of type n (what a freshly appended / constructed element must read as)
+func vZeroRowTerm(n int, allocated bool) string {
+	it := make([]string, len(vSchema[n]))
+	for j, f := range vSchema[n] {
+		switch f.k {
+		case kP:
+			it[j] = "VP 0%Z"
+		case kI, kAny:
+			it[j] = "VI 0 0%Z"
+		case kSl, kPs:
+			it[j] = "VS []"
+		case kPtr:
+			it[j] = "VR (Some (0, " + vZeroRowTerm(f.elem, true) + "))"
+		case kOne:
+			it[j] = "VR None"
+		}
+	}
+	return "[" + strings.Join(it, "; ") + "]"
 }
 
 func vOptFields(n int) []int {
@@ -1693,11 +1743,15 @@ func (g *vProg) planCrossDir(pos vPos, j int, f vFld, all []vPos, hotDst bool) *
 		j int
 	}
 	var cands []cand
+	sameOK := g.forceK < 0 && g.forceH < 0 && !hotDst && rng.Intn(4) == 0 // also slots of the SAME handle whose paths diverge (CopyTo only)
 	for _, q := range all {
-		if q.h == pos.h {
+		if q.h == pos.h && !sameOK {
 			continue
 		}
 		for jj, ff := range vSchema[q.n] {
+			if q.h == pos.h && !vDiverge(pos.p, j, q.p, jj) {
+				continue
+			}
 			if vSameFld(f, ff) && reflect.TypeOf(vSlotW(q.n, q.node, jj)) == reflect.TypeOf(vSlotW(pos.n, pos.node, j)) {
 				cands = append(cands, cand{q, jj})
 			}
@@ -1737,6 +1791,24 @@ func (g *vProg) planCrossDir(pos vPos, j int, f vFld, all []vPos, hotDst bool) *
 	if g.forceK < 0 && !g.forceCopySrc && (hotDst || rng.Bool()) {
 		src, sj, dst, dj = c.q, c.j, pos, j
 	}
+	boundary := false
+	if g.forceK < 0 && !g.forceCopySrc && !hotDst && rng.Intn(2) == 0 {
+		// boundary shape: an EMPTY source onto a NON-EMPTY destination (copy / move must still override it)
+		empty := func(p vPos, jj int) bool {
+			w := vSlotW(p.n, p.node, jj)
+			if v, ok := w.(pcommon.Value); ok {
+				return v.Type() == pcommon.ValueTypeEmpty
+			}
+			return vLen(w) == 0
+		}
+		if empty(dst, dj) && !empty(src, sj) {
+			src, sj, dst, dj = dst, dj, src, sj
+		}
+		if empty(src, sj) && !empty(dst, dj) {
+			g.out.Stat("cross_op_empty_source_nonempty_dest", 1)
+			boundary = true
+		}
+	}
 	sw := vSlotW(src.n, src.node, sj)
 	dw := vSlotW(dst.n, dst.node, dj)
 	reSrc := func() (any, int) { _, nd := vNav(g.types[src.h], g.roots[src.h], src.p); return nd, src.n }
@@ -1766,6 +1838,10 @@ func (g *vProg) planCrossDir(pos vPos, j int, f vFld, all []vPos, hotDst bool) *
 	if g.forceCopySrc {
 		kind = 0
 	}
+	if src.h == dst.h { // two diverging positions inside one payload: only CopyTo (the model's moves are between handles)
+		kind = 0
+		g.out.Stat("copy_within_one_handle", 1)
+	}
 	// the source of a move must end up without capacity: observed too (struct slices, Map, Slice)
 	addSrcCap := func(pl *vPlan) *vPlan {
 		if tracked {
@@ -1780,6 +1856,13 @@ func (g *vProg) planCrossDir(pos vPos, j int, f vFld, all []vPos, hotDst bool) *
 	}
 	hasMoveTo := f.k == kAny || f.k == kPs || (f.k == kSl && f.elem == 1)
 	hasMoveAppend := f.k == kSl && f.elem != 1
+	if boundary && src.h != dst.h && rng.Bool() { // moves are the operations that tend to short-cut on an empty source
+		if hasMoveTo {
+			kind = 3
+		} else if hasMoveAppend {
+			kind = 4
+		}
+	}
 	switch {
 	case kind == 3 && hasMoveTo:
 		return addSrcCap(&vPlan{term: "OMoveSlot " + args, name: "move-slot", writes: []int{src.h, dst.h}, run: func() {
@@ -1837,7 +1920,11 @@ func (g *vProg) planCrossDir(pos vPos, j int, f vFld, all []vPos, hotDst bool) *
 			}
 			ns, n2 := reSrc()
 			nd, n := reDst()
-			g.copyOracle(vReadSlot(n2, ns, sj), vReadSlot(n, nd, dj))
+			after := vReadSlot(n2, ns, sj)
+			if after != srcBefore {
+				g.oracle("copy-changed-source", "CopyTo changed its source: "+srcBefore+" -> "+after)
+			}
+			g.copyOracle(after, vReadSlot(n, nd, dj))
 		}})
 }
 
